@@ -781,3 +781,10 @@ pub fn reward_addresses(g: &mut G) -> RewardAddresses { let (n, _) = fill(g); le
 pub fn metadatum_labels(g: &mut G) -> TransactionMetadatumLabels { let (n, _) = fill(g); let mut l = TransactionMetadatumLabels::new(); for _ in 0..n { l.add(&g.bn()); } l }
 pub fn bignum(g: &mut G) -> BigNum { g.bn() }
 pub fn versioned_block(g: &mut G) -> VersionedBlock { let era = match g.pick(3) { 0 => g.below(10) as u32, 1 => 7, _ => g.u32() }; VersionedBlock::new(g.nest(block), era) }
+/// a FixedTransaction assembled from the serialised parts (the constructors take raw bytes)
+pub fn fixed_tx(g: &mut G) -> FixedTransaction {
+    let (aux, valid) = (g.pick(2), g.pick(2) == 1);
+    let b = g.nest(tx_body); let w = g.nest(witness_set);
+    if aux == 1 { let a = g.nest(auxiliary_data); FixedTransaction::new_with_auxiliary(&b.to_bytes(), &w.to_bytes(), &a.to_bytes(), valid).unwrap() }
+    else { FixedTransaction::new(&b.to_bytes(), &w.to_bytes(), valid).unwrap() }
+}
